@@ -170,13 +170,54 @@ def wrappers(repo, chk):
         frame = fn.params[0]
         cs = [c for c in calls(fn, attr=callee_attr)]
         rets = returns(fn)
-        ok = len(cs) == 1 and cs[0].args and ast.unparse(cs[0].args[0]) == frame and len(rets) == 1
+
+        def frame_arg(c):
+            # the frame is handed over positionally (first) or by keyword; nothing else is a frame
+            cands = list(c.args[:1]) + [k.value for k in c.keywords if k.arg in ('dataframe', 'df', 'input_dataframe', 'data')]
+            return len(cands) == 1 and ast.unparse(cands[0]) == frame
+        ok = len(cs) == 1 and frame_arg(cs[0]) and len(rets) == 1
         if ok and isinstance(rets[0].value, ast.Name):
             par = parents(fn.node)
             st = par.get(cs[0])
-            ok = isinstance(st, ast.Assign) and isinstance(st.targets[0], ast.Name) and st.targets[0].id == rets[0].value.id
+            ok = isinstance(st, ast.Assign) and isinstance(st.targets[0], ast.Name) and st.targets[0].id == rets[0].value.id and \
+                sum(1 for n in own_nodes(fn.node) if isinstance(n, ast.Name) and isinstance(n.ctx, ast.Store) and n.id == rets[0].value.id) == 1
         elif ok:
             ok = rets[0].value is cs[0]
+        if not ok and len(cs) == 1 and len(rets) > 1 and frame_arg(cs[0]):
+            # several returns: each must hand back what the constructor returned for THIS frame; a return of something assembled from
+            # module-level state (a cache of an earlier batch's columns) is decided positively
+            m_ = fn.module
+            state = {k for k, vs in m_.assigns.items() if any(isinstance(v, (ast.Dict, ast.List, ast.Set, ast.Call)) for v in vs)} - set(fn.params)
+
+            def reads_state(e, depth=0):
+                for x in ast.walk(e):
+                    if isinstance(x, ast.Name) and x.id in state:
+                        return x.id
+                    if isinstance(x, ast.Name) and depth < 3:
+                        for n in own_nodes(fn.node):
+                            if isinstance(n, ast.Assign) and any(isinstance(t, ast.Name) and t.id == x.id for t in n.targets) and n.value is not e:
+                                r_ = reads_state(n.value, depth + 1)
+                                if r_:
+                                    return r_
+                return None
+            par = parents(fn.node)
+            st = par.get(cs[0])
+            res_name = st.targets[0].id if isinstance(st, ast.Assign) and isinstance(st.targets[0], ast.Name) else None
+            bad_ret = None
+            for r in rets:
+                if r.value is cs[0] or (isinstance(r.value, ast.Name) and r.value.id == res_name):
+                    continue
+                src = reads_state(r.value) if r.value is not None else None
+                if src:
+                    bad_ret = (r, src)
+                    break
+            if bad_ret:
+                chk.bad('C11.1w', 'R11', fn.site(bad_ret[0]), ast.unparse(bad_ret[0])[:120], f'{name} returns a frame assembled from the module-level {bad_ret[1]} instead of what the constructor returned for this frame: '
+                        'columns computed for an earlier batch are attached to the rows of this one (not one value per row OF THIS BATCH, not the stated rule applied to it)')
+                continue
+        if not ok and (len(cs) != 1 or len(rets) != 1):
+            chk.unsure('C11.1w', 'R11', fn.site(), f'{name}: return transformer.{callee_attr}({frame}, ...)', f'{len(cs)} application(s) of the constructor and {len(rets)} return(s) in {name}: how the result reaches the caller is not decided')
+            continue
         chk.expect(ok, 'C11.1w', 'R11', fn.site(), f'{name}: return transformer.{callee_attr}({frame}, ...)', 'the wrapper returns what the constructor returns', f'{name} must hand its input frame to the constructor and return the constructor\'s result unchanged')
 
 
@@ -237,6 +278,14 @@ def custody(repo, chk):
             chk.unsure('C11.1c', 'R11', fn.site(), shown, 'the frame handed to the ranking is not recognised as the composition of the construction steps over the batch frame')
     found = len(chain)
     chk.analysed['construction_steps_in_ranked_frame'] = chain
+    # between the steps nothing may replace a column the batch came with
+    from .common import column_overwrites
+    ow = column_overwrites(fn)
+    for n, F, k, why in ow:
+        chk.bad('C11.1e', 'R11', fn.site(n), ast.unparse(n).replace('\n', ' ')[:120], f'compute_batch_ranking replaces an existing column of the batch frame ({why}): the values the batch came with are not the values that are ranked and '
+                'summarised - construction must only append columns')
+    if not ow:
+        chk.ok('C11.1e', 'R11', fn.site(), 'stores into the batch frame in compute_batch_ranking', 'no statement of compute_batch_ranking (helpers expanded) stores into an existing column of the running frame')
     # the scored frame is that frame (C11.1d is part of the composition above: `ranked` is the argument of mixed_rank_graph)
     cs = [c for c in calls(fn) if m.dotted(c.func) == f'{CR}.mixed_rank_graph']
     chk.expect(len(cs) == 1, 'C11.1d', 'R11', fn.site(cs[0]) if cs else fn.site(), ast.unparse(cs[0])[:80] if cs else '', 'the ranked frame is the constructed frame', 'mixed_rank_graph must receive the constructed frame (one call)')
